@@ -21,7 +21,11 @@ P = {'id': 'C17',
               'read_after_write_is_fresh_from',
               'covering_invalidation_history_correct',
               'single_cache_is_wrapped_cache',
-              'page_load_is_file_page'],
+              'page_load_is_file_page',
+              'virtual_read_supplies_nothing',
+              'virtual_pages_stay_empty',
+              'cached_store_is_inner_store',
+              'shared_cache_reads_stay_fresh'],
  'trusted': ['modelled (M+S): src/containers/specialized/lru_map.rs (LruList insert_head/remove/move_to_head, LruMap get/put/remove/contains_key/len/clear/evict_lru/allocate_node), '
              'src/containers/specialized/concurrent_lru_map.rs (Hash routing with the hash as a parameter, per-shard dispatch, clear, len), src/cache/basic_cache.rs (LruPageCache read with the file-size clamp and the page loop, '
              'get_page with invalidation tracker and eviction, prefetch, invalidate_page/range, in-place overwrite of the file + invalidate_range) with FileManager::read_page of src/cache/mod.rs as "the bytes of the page that exist in the file", '
